@@ -138,6 +138,19 @@ def flow(rng, gens):
     return {"e": "PedFlow", "in": rec}
 
 
+def replay(chk, path):
+    """bin/check C08 --replay FILE: re-execute the records of a violation file on the named build, re-decide them with TLC"""
+    import vlib
+    chk.groups = ["pedersen"]
+    recs = vlib.read_ndjson(path)
+    variant = recs[0].get("variant", "std") if recs and recs[0].get("e") == "Build" else "std"
+    recs = [r for r in recs if r.get("e") != "Build"]
+    chk.build([variant])
+    ev = chk.record(recs, variant)
+    chk.validate(ev, MODULE, "C08_trace_%s.cfg" % variant if variant.startswith("tiny") else "C08_trace.cfg", "replay", variant)
+    return chk.finish(LEVEL, "replay of " + path, [])
+
+
 def run(chk):
     quick = chk.tier == "quick"
     chk.groups = ["pedersen"]
